@@ -335,6 +335,11 @@ func (o *oracle) qcBacked(qc hotstuff.QuorumCert) (bool, string) {
 		if qc.View() != 0 {
 			return false, fmt.Sprintf("genesis certificate relabelled to view %d", qc.View())
 		}
+		if qc.Signature() != nil {
+			// nobody signs genesis: its certificate is the unsigned one, and anything that carries a signature there
+			// is somebody's invention (D22), never an honestly assembled certificate
+			return false, "genesis certificate carries a signature"
+		}
 		return true, ""
 	}
 	b := o.w.reg.get(qc.BlockHash())
